@@ -9,6 +9,7 @@ from ..stages import *
 KINDS = ['block', 'flex', 'grid']
 RESULT = ['location.x', 'location.y', 'size.width', 'size.height', 'margin.left', 'margin.right', 'margin.top', 'margin.bottom']
 NEG_AREA = 'grid-abspos-negative-area'
+PCT_BORDER = 'block-abspos-percent-border'
 
 
 def shape(c):
@@ -118,15 +119,19 @@ def run(rep, tier, seed, replay=None):
                 rep.add_violation('absolute child in a %s (model and implementation differ in %s)' % (f1[0], ', '.join(fld)),
                                   {'case': c, 'impl': a, 'model': b, 'cmd': 'vh c11 one ' + ' '.join(map(str, c))})
                 break
-    # ---- the witness of C11_end_grid_negative_area_refuted must still fail on the implementation (known finding)
+    # ---- known findings: their witnesses must still fail on the implementation (and must not spread to the other kinds)
     rc, wout = vh(binp, ['c11', 'witness'])
-    w = dict(re.findall(r'WITNESS (\w+) .* fails=(\d)', wout))
-    rep.cov['negative_area_witness'] = w
-    kf = [f for f in known_findings('C11') if f.get('id') == NEG_AREA and f.get('status') == 'known']
-    if w.get('grid') == '1' and kf:
-        rep.known.append(kf[0]['line'])
-    elif w.get('grid') == '0' and kf:
-        rep.cov['stale_known_finding'] = NEG_AREA
-    for k in ('block', 'flex'):
-        if w.get(k) == '1':
-            rep.add_violation('end inset not honoured in a %s container whose padding box has negative extent' % k, {'cmd': 'vh c11 witness'})
+    rc2, wout2 = vh(binp, ['c11', 'witness2'])
+    w = dict(re.findall(r'WITNESS (\w+) .* fails=(\d)', wout + wout2))
+    rep.cov['known_finding_witnesses'] = w
+    expected = {'grid': NEG_AREA, 'percent_border_block': PCT_BORDER}
+    for name, failed in sorted(w.items()):
+        fid = expected.get(name)
+        kf = [f for f in known_findings('C11') if f.get('id') == fid and f.get('status') == 'known']
+        if failed == '1' and kf:
+            rep.known.append(kf[0]['line'])
+        elif failed == '1':
+            rep.add_violation('witness %s: the inset equation fails on the implementation' % name,
+                              {'cmd': 'vh c11 witness; vh c11 witness2', 'output': wout + wout2})
+        elif kf:
+            rep.cov.setdefault('stale_known_findings', []).append(fid)
